@@ -262,7 +262,7 @@ def one_case(arg):
                 for cut in rng.sample(bounds[:-1], min(3, len(bounds) - 1)) if len(bounds) > 1 else []:
                     pdir = os.path.join(d, "cfgcut%d" % cut)
                     plan = R.make_plan(pdir, [{"sig": "config --list", "ord": rng.choice([0, 0, 1]), "mode": "fault",
-                                               "term": rng.choice(["exit:128", "sig:KILL"]), "after_bytes": cut}])
+                                               "term": rng.choice(["exit:128", "sig:KILL", "exit:1"]), "after_bytes": cut}])
                     rc_ = R.sizer(sizerbin, work, ["--json", "--no-progress"], env=env, shimdir=shimdir, plan=plan, tmpdir=d)
                     out["evals"] += 1
                     if rc_.rc == 0:
